@@ -52,6 +52,19 @@ def gen_cases(rng, tier, ctx):
     return cs
 
 
+def ascii_size(b):
+    """codewords of the plain ASCII encodation: digit pairs 1, bytes < 128 1, others 2 (upper shift)"""
+    n = i = 0
+    while i < len(b):
+        if i + 1 < len(b) and 48 <= b[i] <= 57 and 48 <= b[i + 1] <= 57:
+            n += 1
+            i += 2
+        else:
+            n += 1 if b[i] <= 127 else 2
+            i += 1
+    return n
+
+
 def macro_applies(cfg):
     d = cfg['data']
     return (cfg['macros'] and not cfg['fnc1'] and (d[:7] == gen.H05 or d[:7] == gen.H06) and d[-2:] == gen.TRAIL and len(d) >= 2)
@@ -60,6 +73,11 @@ def macro_applies(cfg):
 def check_impl(c, out, ctx, prof):
     why_cert = enccommon.cert_verdict(c, ctx)
     if not out.startswith('ok '):
+        cfg = c['cfg']
+        if out.startswith('err') and macro_applies(cfg) and (cfg['modes'] & 1) and cfg['wl']:
+            body = cfg['data'][7:-2]
+            if 1 + ascii_size(body) <= max(gen.caps()[i] for i in cfg['wl']):
+                return 'enveloped message refused (%s) although macro codeword + ASCII body needs %d codewords' % (out[:40], 1 + ascii_size(body))
         return None
     parts = out.split(' ')
     dcw = ints(parts[2])
